@@ -164,6 +164,44 @@ def transfRun (mode : Mode) (T : Affine2 Rat) (csS csD : CS2) (rnd : Rounding) :
   | st, [], a => (transfStep mode T csS csD rnd st a).2
   | st, h :: hs, a => transfRun mode T csS csD rnd (transfStep mode T csS csD rnd st h).1 hs a
 
+/-! ### the warp cache keyed by the state of the transformation (code after the round-5 fix)
+
+The transformation carries a version counter that every parameter update increases; the correction stores the version its
+cache was computed for and recomputes on mismatch. Operations on one correction object: apply it to an array, or change the
+parameters of its transformation. -/
+
+inductive TOp
+  | apply (a : TArr)
+  | setParams (T : Affine2 Rat)
+
+structure TState where
+  ver : Nat                              -- transformation.parameter_version
+  T : Affine2 Rat                        -- current parameters
+  cache : Option (Nat × Cache)           -- (version the cache was computed for, cache)
+
+def tstep (mode : Mode) (csS csD : CS2) (rnd : Rounding) (st : TState) : TOp → TState × Option TArr
+  | .setParams T' => ({ st with ver := st.ver + 1, T := T' }, none)
+  | .apply a =>
+    let c := match st.cache with
+      | some (v, c) => if v = st.ver then c else mkCache mode st.T csS csD rnd
+      | none => mkCache mode st.T csS csD rnd
+    ({ st with cache := some (st.ver, c) },
+     some ⟨a.dt, ⟨csD.n0, csD.n1, fun v0 v1 => let e := c v0 v1; if e.2 then a.arr.get e.1.1 e.1.2 else 0⟩⟩)
+
+/-- the tree before the fix: the cache is never invalidated -/
+def tstepOld (mode : Mode) (csS csD : CS2) (rnd : Rounding) (st : TState) : TOp → TState × Option TArr
+  | .setParams T' => ({ st with ver := st.ver + 1, T := T' }, none)
+  | .apply a =>
+    let c := match st.cache with
+      | some (_, c) => c
+      | none => mkCache mode st.T csS csD rnd
+    ({ st with cache := some (st.ver, c) },
+     some ⟨a.dt, ⟨csD.n0, csD.n1, fun v0 v1 => let e := c v0 v1; if e.2 then a.arr.get e.1.1 e.1.2 else 0⟩⟩)
+
+def trun (step : TState → TOp → TState × Option TArr) (st : TState) : List TOp → TState
+  | [] => st
+  | op :: ops => trun step (step st op).1 ops
+
 /-! ### the shared workflow instantiated with a concrete array function -/
 
 open Darsia.Correction in
